@@ -20,4 +20,9 @@ CONSTANTS
   MaxCrash = 1
   FlushModes <- FlushBoth
   AllowRestart = TRUE
+  MaxCur = 0
+  PutPaths <- AllPaths
+  CurSeeks = FALSE
+  BucketOps = TRUE
+  PreBuckets <- NoPaths
 INVARIANTS TypeOK Disjoint Atomicity Isolation PrefixDurability ReopenOK
